@@ -57,3 +57,254 @@ def determinism(base_seed, jobs):
         print("HARNESS-ERROR nondeterministic cases:", bad[:10])
         return 2
     return 0
+
+
+# --------------------------------------------------------------------------
+# fidelity of the simulated primitives: small programs whose result does not
+# depend on the schedule are executed once with the real `threading` / `queue`
+# modules and real threads, and many times under the simulator (seeded
+# schedules); the results must be identical.
+# --------------------------------------------------------------------------
+def _scenarios():
+    def mutex(T, Q, sleep):
+        lock, state = T.Lock(), dict(n=0, holders=0, max_holders=0)
+
+        def work():
+            for _ in range(5):
+                with lock:
+                    state["holders"] += 1
+                    state["max_holders"] = max(state["max_holders"], state["holders"])
+                    v = state["n"]
+                    sleep(0.001)
+                    state["n"] = v + 1
+                    state["holders"] -= 1
+
+        ts = [T.Thread(target=work) for _ in range(4)]
+        [t.start() for t in ts]
+        [t.join() for t in ts]
+        return state["n"], state["max_holders"], lock.locked()
+
+    def prodcons(T, Q, sleep):
+        q, got, glock = Q.Queue(), [], T.Lock()
+
+        def prod(k):
+            for i in range(5):
+                q.put((k, i))
+                sleep(0.0005)
+
+        def cons():
+            while True:
+                x = q.get()
+                try:
+                    if x is None:
+                        return
+                    with glock:
+                        got.append(x)
+                finally:
+                    q.task_done()
+
+        cs = [T.Thread(target=cons) for _ in range(2)]
+        ps = [T.Thread(target=prod, args=(k,)) for k in range(3)]
+        [t.start() for t in cs + ps]
+        [t.join() for t in ps]
+        q.join()
+        for _ in cs:
+            q.put(None)
+        [t.join() for t in cs]
+        return sorted(got), q.unfinished_tasks, q.qsize(), [t.is_alive() for t in cs]
+
+    def cond_timeout(T, Q, sleep):
+        c = T.Condition()
+        with c:
+            r = c.wait(0.02)
+            owned_after = True
+        with c:
+            r2 = c.wait_for(lambda: False, 0.02)
+        return r, owned_after, r2
+
+    def notify_n(T, Q, sleep):
+        c, res, ready = T.Condition(), [], []
+
+        def waiter():
+            with c:
+                ready.append(1)
+                res.append(c.wait(1.5))
+
+        ts = [T.Thread(target=waiter) for _ in range(3)]
+        [t.start() for t in ts]
+        while True:
+            with c:
+                if len(ready) == 3:
+                    break
+            sleep(0.005)
+        sleep(0.05)
+        with c:
+            c.notify(2)
+        [t.join() for t in ts]
+        return sorted(res)
+
+    def event(T, Q, sleep):
+        e = T.Event()
+        a = e.wait(0.01)
+        out = []
+
+        def w():
+            out.append(e.wait(2.0))
+
+        t = T.Thread(target=w)
+        t.start()
+        sleep(0.02)
+        e.set()
+        t.join()
+        b = e.is_set()
+        e.clear()
+        return a, out, b, e.is_set(), e.wait(0)
+
+    def rlock(T, Q, sleep):
+        r, held, done, out = T.RLock(), T.Event(), T.Event(), []
+
+        def a():
+            r.acquire()
+            r.acquire()
+            held.set()
+            done.wait(2.0)
+            r.release()
+            r.release()
+
+        ta = T.Thread(target=a)
+        ta.start()
+        held.wait(2.0)
+        out.append(r.acquire(blocking=False))
+        out.append(r.acquire(timeout=0.02))
+        done.set()
+        ta.join()
+        out.append(r.acquire(blocking=False))
+        r.release()
+        try:
+            r.release()
+            out.append("no error")
+        except RuntimeError:
+            out.append("RuntimeError")
+        return out
+
+    def misuse(T, Q, sleep):
+        out = []
+        for f in (lambda: T.Lock().release(), lambda: T.Condition().wait(0.01), lambda: T.Condition().notify(),
+                  lambda: T.Thread(target=lambda: None).join()):
+            try:
+                f()
+                out.append("no error")
+            except RuntimeError:
+                out.append("RuntimeError")
+        t = T.Thread(target=lambda: None)
+        t.start()
+        t.join()
+        try:
+            t.start()
+            out.append("no error")
+        except RuntimeError:
+            out.append("RuntimeError")
+        return out
+
+    def lock_timeout(T, Q, sleep):
+        lk, held, go, out = T.Lock(), T.Event(), T.Event(), []
+
+        def a():
+            with lk:
+                held.set()
+                go.wait(2.0)
+
+        t = T.Thread(target=a)
+        t.start()
+        held.wait(2.0)
+        out.append(lk.acquire(timeout=0.02))
+        out.append(lk.acquire(False))
+        out.append(lk.locked())
+        go.set()
+        t.join()
+        out.append(lk.acquire(timeout=1.0))
+        lk.release()
+        return out
+
+    def join_timeout(T, Q, sleep):
+        go = T.Event()
+        t = T.Thread(target=lambda: go.wait(2.0))
+        t.start()
+        t.join(0.02)
+        a = t.is_alive()
+        go.set()
+        t.join()
+        return a, t.is_alive()
+
+    def queue_misc(T, Q, sleep):
+        q, out = Q.Queue(), []
+        try:
+            q.get(timeout=0.02)
+        except Q.Empty:
+            out.append("Empty")
+        try:
+            q.get_nowait()
+        except Q.Empty:
+            out.append("Empty")
+        q.put(1)
+        out.append(q.get_nowait())
+        q.task_done()
+        try:
+            q.task_done()
+        except ValueError:
+            out.append("ValueError")
+        b = Q.Queue(maxsize=1)
+        b.put(1)
+        try:
+            b.put(2, timeout=0.02)
+        except Q.Full:
+            out.append("Full")
+        flag = []
+
+        def worker():
+            b.get()
+            sleep(0.03)
+            flag.append("worked")
+            b.task_done()
+
+        t = T.Thread(target=worker)
+        t.start()
+        b.join()
+        out.append(list(flag))
+        t.join()
+        return out
+
+    return dict(mutex=mutex, prodcons=prodcons, cond_timeout=cond_timeout, notify_n=notify_n, event=event, rlock=rlock,
+                misuse=misuse, lock_timeout=lock_timeout, join_timeout=join_timeout, queue_misc=queue_misc)
+
+
+def prims_fidelity(base_seed, n_seeds=120):
+    import queue
+    import random
+    import threading
+    import time as _time
+
+    from simkit import prims, sched, shims
+
+    t0 = time.time()
+    scen = _scenarios()
+    real = {k: f(threading, queue, _time.sleep) for k, f in scen.items()}
+    bad, runs = [], 0
+    for s in range(n_seeds):
+        rng = random.Random(f"prims-{base_seed}-{s}")
+        strategy = rng.choice([("rw", 0.0, 0.1), ("rw", 0.0, 0.5), ("rw", 0.0, 0.9), ("rtb",), ("pct", 2, 200), ("pct", 5, 60)])
+        for name, f in scen.items():
+            sim = sched.Sim(rng.randrange(1 << 40), strategy=strategy, max_steps=200_000)
+            shims.install(gran="sync")
+            try:
+                res, exc = sim.run(lambda: f(prims.THREADING, queue, sim.sleep))
+            finally:
+                shims.uninstall()
+            runs += 1
+            if exc is not None or sim.hung is not None or sim.leaked or sim.thread_deaths or res != real[name]:
+                bad.append((name, s, strategy, repr(res)[:200], repr(exc), sim.hung, sim.thread_deaths))
+    print(f"primitive fidelity self-test: {len(scen)} programs x {n_seeds} seeded schedules = {runs} simulated runs compared "
+          f"with one real-thread execution each, mismatches: {len(bad)}, {time.time() - t0:.0f}s")
+    for b in bad[:8]:
+        print("  MISMATCH", b, "real:", repr(real[b[0]])[:200])
+    return 2 if bad else 0
